@@ -218,6 +218,28 @@ fn io_part(ctx: &mut Ctx) {
 }
 
 pub fn run(ctx: &mut Ctx) {
+    if ctx.mode == "miri" {
+        // small workload for the undefined-behaviour interpreter: capacities 1..3, all histories of
+        // length <= 4, one random history with wrap-arounds
+        for cap in 1..=3usize {
+            for queue in [true, false] {
+                for len in 1..=4 {
+                    for code in 0..4u64.pow(len as u32) {
+                        let mut c = code;
+                        let h: Vec<Op> = (0..len).map(|_| { let o = OPS[(c % 4) as usize]; c /= 4; o }).collect();
+                        run_hist(ctx, cap, queue, &h);
+                    }
+                }
+            }
+        }
+        let mut r = Rng::derive(ctx.seed, &[17, 1]);
+        let h: Vec<Op> = (0..300).map(|_| OPS[r.below(3)]).collect();
+        run_hist(ctx, 3, true, &h);
+        run_hist(ctx, 10, false, &h);
+        ctx.rec.sample("miri", "capacities 1..3, both kinds, all histories of length <= 4; two random histories of 300 ops");
+        ctx.rec.checkpoint();
+        return;
+    }
     let mut case: u64 = 0;
     let k = ctx.n(6, 8);
     let mut space = 0u64;
